@@ -68,5 +68,148 @@ package account
 //@ func NewBalanceLog
 //@   props C07
 //@   requires processor != nil && newBalance != nil
+//@   modifies gh("nextVersion", processor.GetAccount(address))
 //@   ensures result != nil && fresh(result) && result.LogType == BalanceLog && typeIs(result.OldVal, big.Int) && typeIs(result.NewVal, big.Int)
 //@   ensures result.OldVal.(big.Int) == old(types.balanceOf(processor.GetAccount(address))) && result.NewVal.(big.Int) == val(newBalance)
+
+// ---------------------------------------------------------------------------------------------------------------------
+// C07, journal before write: every mutation of an account goes through a SafeAccount setter, which creates the change log from
+// the LIVE account (the log's old value is read there), pushes it onto the journal and only then writes the raw account.  If the
+// raw write came first the log would record the new value as the old one and a revert would restore nothing.  gh("rawWrites", a)
+// counts the writes to raw account a (incremented by the assumed contracts of the raw setters); each setter is checked to reach
+// PushChangeLog with the counter where it was on entry.  Log constructors read the account, take a provisional version number and allocate; they do not write account data (assumed).
+//@ func (*LogProcessor).PushChangeLog   trusted
+//@   modifies h.changeLogs
+//@ func NewAddEventLog   trusted
+//@   modifies allbut("rawWrites", SafeAccount)
+//@ func NewAssetCodeLog   trusted
+//@   modifies allbut("rawWrites", SafeAccount)
+//@ func NewAssetCodeStateLog   trusted
+//@   modifies allbut("rawWrites", SafeAccount)
+//@ func NewAssetCodeTotalSupplyLog   trusted
+//@   modifies allbut("rawWrites", SafeAccount)
+//@ func NewAssetIdLog   trusted
+//@   modifies allbut("rawWrites", SafeAccount)
+//@ func NewCandidateLog   trusted
+//@   modifies allbut("rawWrites", SafeAccount)
+//@ func NewCandidateStateLog   trusted
+//@   modifies allbut("rawWrites", SafeAccount)
+//@ func NewCodeLog   trusted
+//@   modifies allbut("rawWrites", SafeAccount)
+//@ func NewEquityLog   trusted
+//@   modifies allbut("rawWrites", SafeAccount)
+//@ func NewSignerLog   trusted
+//@   modifies allbut("rawWrites", SafeAccount)
+//@ func NewStorageLog   trusted
+//@   modifies allbut("rawWrites", SafeAccount)
+//@ func NewSuicideLog   trusted
+//@   modifies allbut("rawWrites", SafeAccount)
+//@ func NewVoteForLog   trusted
+//@   modifies allbut("rawWrites", SafeAccount)
+//@ func NewVotesLog   trusted
+//@   modifies allbut("rawWrites", SafeAccount)
+//@ func (*Account).PushEvent   trusted
+//@   modifies all
+//@   ensures gh("rawWrites", ref(a)) == old(gh("rawWrites", ref(a))) + 1
+//@ func (*Account).SetAssetCode   trusted
+//@   modifies all
+//@   ensures gh("rawWrites", ref(a)) == old(gh("rawWrites", ref(a))) + 1
+//@ func (*Account).SetAssetCodeState   trusted
+//@   modifies all
+//@   ensures gh("rawWrites", ref(a)) == old(gh("rawWrites", ref(a))) + 1
+//@ func (*Account).SetAssetCodeTotalSupply   trusted
+//@   modifies all
+//@   ensures gh("rawWrites", ref(a)) == old(gh("rawWrites", ref(a))) + 1
+//@ func (*Account).SetAssetIdState   trusted
+//@   modifies all
+//@   ensures gh("rawWrites", ref(a)) == old(gh("rawWrites", ref(a))) + 1
+//@ func (*Account).SetBalance   trusted
+//@   modifies all
+//@   ensures gh("rawWrites", ref(a)) == old(gh("rawWrites", ref(a))) + 1
+//@ func (*Account).SetCandidate   trusted
+//@   modifies all
+//@   ensures gh("rawWrites", ref(a)) == old(gh("rawWrites", ref(a))) + 1
+//@ func (*Account).SetCandidateState   trusted
+//@   modifies all
+//@   ensures gh("rawWrites", ref(a)) == old(gh("rawWrites", ref(a))) + 1
+//@ func (*Account).SetCode   trusted
+//@   modifies all
+//@   ensures gh("rawWrites", ref(a)) == old(gh("rawWrites", ref(a))) + 1
+//@ func (*Account).SetEquityState   trusted
+//@   modifies all
+//@   ensures gh("rawWrites", ref(a)) == old(gh("rawWrites", ref(a))) + 1
+//@ func (*Account).SetSingers   trusted
+//@   modifies all
+//@   ensures gh("rawWrites", ref(a)) == old(gh("rawWrites", ref(a))) + 1
+//@ func (*Account).SetStorageState   trusted
+//@   modifies all
+//@   ensures gh("rawWrites", ref(a)) == old(gh("rawWrites", ref(a))) + 1
+//@ func (*Account).SetSuicide   trusted
+//@   modifies all
+//@   ensures gh("rawWrites", ref(a)) == old(gh("rawWrites", ref(a))) + 1
+//@ func (*Account).SetVoteFor   trusted
+//@   modifies all
+//@   ensures gh("rawWrites", ref(a)) == old(gh("rawWrites", ref(a))) + 1
+//@ func (*Account).SetVotes   trusted
+//@   modifies all
+//@   ensures gh("rawWrites", ref(a)) == old(gh("rawWrites", ref(a))) + 1
+//@ func (*SafeAccount).SetSingers
+//@   props C07
+//@   requires a != nil && a.rawAccount != nil && a.processor != nil
+//@   assert @call PushChangeLog#0: gh("rawWrites", ref(a.rawAccount)) == old(gh("rawWrites", ref(a.rawAccount)))
+//@ func (*SafeAccount).PushEvent
+//@   props C07
+//@   requires a != nil && a.rawAccount != nil && a.processor != nil
+//@   assert @call PushChangeLog#0: gh("rawWrites", ref(a.rawAccount)) == old(gh("rawWrites", ref(a.rawAccount)))
+//@ func (*SafeAccount).SetCandidate
+//@   props C07
+//@   requires a != nil && a.rawAccount != nil && a.processor != nil
+//@   assert @call PushChangeLog#0: gh("rawWrites", ref(a.rawAccount)) == old(gh("rawWrites", ref(a.rawAccount)))
+//@ func (*SafeAccount).SetCandidateState
+//@   props C07
+//@   requires a != nil && a.rawAccount != nil && a.processor != nil
+//@   assert @call PushChangeLog#0: gh("rawWrites", ref(a.rawAccount)) == old(gh("rawWrites", ref(a.rawAccount)))
+//@ func (*SafeAccount).SetAssetCode
+//@   props C07
+//@   requires a != nil && a.rawAccount != nil && a.processor != nil
+//@   assert @call PushChangeLog#0: gh("rawWrites", ref(a.rawAccount)) == old(gh("rawWrites", ref(a.rawAccount)))
+//@ func (*SafeAccount).SetAssetCodeTotalSupply
+//@   props C07
+//@   requires a != nil && a.rawAccount != nil && a.processor != nil
+//@   assert @call PushChangeLog#0: gh("rawWrites", ref(a.rawAccount)) == old(gh("rawWrites", ref(a.rawAccount)))
+//@ func (*SafeAccount).SetVoteFor
+//@   props C07
+//@   requires a != nil && a.rawAccount != nil && a.processor != nil
+//@   assert @call PushChangeLog#0: gh("rawWrites", ref(a.rawAccount)) == old(gh("rawWrites", ref(a.rawAccount)))
+//@ func (*SafeAccount).SetVotes
+//@   props C07
+//@   requires a != nil && a.rawAccount != nil && a.processor != nil
+//@   assert @call PushChangeLog#0: gh("rawWrites", ref(a.rawAccount)) == old(gh("rawWrites", ref(a.rawAccount)))
+//@ func (*SafeAccount).SetStorageState
+//@   props C07
+//@   requires a != nil && a.rawAccount != nil && a.processor != nil
+//@   assert @call PushChangeLog#0: gh("rawWrites", ref(a.rawAccount)) == old(gh("rawWrites", ref(a.rawAccount)))
+//@ func (*SafeAccount).SetAssetCodeState
+//@   props C07
+//@   requires a != nil && a.rawAccount != nil && a.processor != nil
+//@   assert @call PushChangeLog#0: gh("rawWrites", ref(a.rawAccount)) == old(gh("rawWrites", ref(a.rawAccount)))
+//@ func (*SafeAccount).SetAssetIdState
+//@   props C07
+//@   requires a != nil && a.rawAccount != nil && a.processor != nil
+//@   assert @call PushChangeLog#0: gh("rawWrites", ref(a.rawAccount)) == old(gh("rawWrites", ref(a.rawAccount)))
+//@ func (*SafeAccount).SetEquityState
+//@   props C07
+//@   requires a != nil && a.rawAccount != nil && a.processor != nil
+//@   assert @call PushChangeLog#0: gh("rawWrites", ref(a.rawAccount)) == old(gh("rawWrites", ref(a.rawAccount)))
+//@ func (*SafeAccount).SetBalance
+//@   props C07
+//@   requires a != nil && a.rawAccount != nil && a.processor != nil && balance != nil
+//@   assert @call PushChangeLog#0: gh("rawWrites", ref(a.rawAccount)) == old(gh("rawWrites", ref(a.rawAccount)))
+//@ func (*SafeAccount).SetSuicide
+//@   props C07
+//@   requires a != nil && a.rawAccount != nil && a.processor != nil
+//@   assert @call PushChangeLog#0: gh("rawWrites", ref(a.rawAccount)) == old(gh("rawWrites", ref(a.rawAccount)))
+//@ func (*SafeAccount).SetCode
+//@   props C07
+//@   requires a != nil && a.rawAccount != nil && a.processor != nil
+//@   assert @call PushChangeLog#0: gh("rawWrites", ref(a.rawAccount)) == old(gh("rawWrites", ref(a.rawAccount)))
